@@ -898,6 +898,9 @@ func TestVerif_C16_Random(t *testing.T) {
 					compounds = append(compounds, s)
 				}
 			}
+			if len(all) == 0 {
+				break // everything was tombstoned or empty and has been merged / exploded away
+			}
 			op, via := "merge", []string{"index", "cmd"}[rng.Intn(2)]
 			if len(compounds) > 0 {
 				op = []string{"merge", "explode", "tomb", "tomb", "untomb"}[rng.Intn(5)]
